@@ -97,6 +97,14 @@ func (WR) Write(p []byte) int { return 0 }
 
 type WE struct{ W } // promoted through embedding
 
+type FF struct { // a FIELD named like io.Writer's method, with the identical function type: not a method
+	Write func(p []byte) (int, error)
+}
+
+type FE struct{ Error func() string } // the same for the predeclared error interface
+
+type FFE struct{ FF } // the field promoted through embedding
+
 type HH struct{} // a hash.Hash
 
 func (HH) Write(p []byte) (int, error) { return 0, nil }
@@ -186,6 +194,9 @@ var (
 	ganu ANU
 	gsa  SA
 	gwv  WV
+	gff  FF
+	gfe  FE
+	gffe FFE
 	gwp  WP
 	gwr  WR
 	gwe  WE
@@ -221,6 +232,8 @@ var c02Exprs = []string{
 	"struct{}{}", "E{}", "new(int)", "make([]int, 1)", "append(gsl, 1)", "gi == 1", "gs + \"x\"", "gs + cs", "gerr == nil", "gfn(1)",
 	"gen[[]int]", "gen[int]", "gen[map[string]int](gm)", "gsl[gi:fn(1)]", "gsl[:gi:gi+1]", "gif.(fmt.Stringer).String", "S1{a: int8(fn(1))}", "map[string]int{gs: gi}", "[2]int{c5, 1}", "[...]string{cs}", "AS1{1, 2}",
 	"gwv", "gwp", "&gwp", "gwr", "gwe", "&gwe", "ghh", "ghv", "&ghv", "glv", "&glv", "gls", "glp", "&glp", "glt", "giv", "gis", "gtt", "gfv", "gfs", "struct{ LV }{}", "struct{ *LP }{}",
+	"gff", "&gff", "gfe", "&gfe", "gffe", "struct{ Error func() string }{}",
+	"map[int]string{1: \"a\", fn(1): \"b\"}", "[]map[int]int{{fn(1): 1}}", "map[int]int{gi: 1}", "map[string]int{gs + \"x\": fn(1)}", "[]int{c5: fn(1)}", "map[int]func(){1: func() {}}",
 	"%t", "%w", "%ws", "%w + 1", "%tp", "%xs", "%xs[0]",
 }
 
